@@ -368,15 +368,27 @@ void *array::append(size_t len, const void *data)
 }
 void *array::insert(size_t off, size_t len, const void *data)
 {
-	void *dest;
+	void *dest, *tmp = 0;
 	content *d;
 	
 	/* compatibility check */
 	if ((d = _buf.instance()) && d->content_traits()) {
 		return 0;
 	}
+	/* source in own content is shifted or moved by insert */
+	if (d && data && len) {
+		const uint8_t *start = static_cast<uint8_t *>(d->data());
+		const uint8_t *from = static_cast<const uint8_t *>(data);
+		if (from >= start && from < start + d->length()) {
+			if (!(tmp = malloc(len))) {
+				return 0;
+			}
+			data = memcpy(tmp, data, len);
+		}
+	}
 	/* create, extend or detach buffer as needed */
 	if (!(dest = mpt_array_insert(this, off, len))) {
+		free(tmp);
 		return 0;
 	}
 	if (data) {
@@ -384,6 +396,7 @@ void *array::insert(size_t off, size_t len, const void *data)
 	} else {
 		memset(dest, 0, len);
 	}
+	free(tmp);
 	return dest;
 }
 int array::printf(const char *fmt, ... )
